@@ -249,6 +249,18 @@ def homodyneReturned (s t : K) (qs : K) : K := s * (qs * t)
 
 end scal
 
+/-! ### which branch a measurement takes -/
+
+/-- `if select is None: <sample> else: <post-select>` (all back ends, homodyne and heterodyne): the branch depends on the
+*presence* of a value, not on the value — `select = 0` is a post-selection -/
+def postSelects {α : Type} (select : Option α) : Bool := select.isSome
+
+/-- the truthiness variant `if select: <post-select> else: <sample>` (seeded change C06-c2) -/
+def postSelectsTruthy {α : Type} [Zero α] [DecidableEq α] (select : Option α) : Bool :=
+  match select with
+  | none => false
+  | some v => decide (v ≠ 0)
+
 /-! ### bosonic weights -/
 
 section weights
